@@ -84,6 +84,9 @@ Layer(kind, x) ==
                                ty |-> "javascript.string", obf |-> "replace", val |-> x, off |-> 0, dom |-> CleanLit(x) /\ NoMark(x) /\ x # <<>>]
     [] kind = "caret" -> [enc |-> <<99, 94, 109, 100, 32, 47, 99, 32>> \o x, ty |-> "shell.cmd", obf |-> "unescape.shell.carets", val |-> CMDC \o x, off |-> 7,
                           dom |-> \A i \in 1..Len(x) : x[i] \notin {94, 0, 41, 40, 13}]
+    [] kind = "psbytesM" -> [enc |-> Concat([i \in 1..Len(x) |-> (IF i = 1 THEN <<>> ELSE <<44>>)       \* hexadecimal and decimal elements alternate
+                                        \o (IF i % 2 = 0 THEN <<48, 120, HexLow(x[i] \div 16), HexLow(x[i] % 16)>> ELSE DecStr(x[i]))]),
+                             ty |-> "powershell.bytes", obf |-> "", val |-> x, off |-> 0, dom |-> Len(x) >= 501]
     [] kind = "psbytesZ" -> [enc |-> Concat([i \in 1..Len(x) |-> (IF i = 1 THEN <<>> ELSE <<44, 32>>)
                                         \o (IF x[i] < 10 THEN <<48, 48>> ELSE IF x[i] < 100 THEN <<48>> ELSE <<>>) \o DecStr(x[i])]),
                              ty |-> "powershell.bytes", obf |-> "", val |-> x, off |-> 0, dom |-> Len(x) >= 501]
